@@ -22,6 +22,8 @@ func init() {
 			"(R6) no explicit panic / log.Fatal is reachable from the decoder or an accessor. " +
 			"Does not decide: byte-swap stride arithmetic (needs divisibility facts about slice lengths), round-trip equality of payload values, type-switch completeness beyond the explicit default arms.",
 		RuleDocs: []string{
+			"C15.R8 the amount discarded after a packet: stride - length%stride only under a test that the remainder is not zero, else nothing (alternatives followed through phis and helper returns)",
+			"C15.R9 the byte-order argument of binary.Read is a concrete value or tested non-nil, unless the data argument is a byte slice",
 			"C15.R1 nil-guard dominance on loads of pointer-typed struct fields and on results of may-return-nil accessors",
 			"C15.R2 divisor != 0 by guard dominance (E6) incl. the clamp idiom (phi of guarded value and constant)",
 			"C15.R3 index / slice / make / Uint16-32-64 read safety by guard dominance (E6) with loop-invariant inference and parity sharpening; lifted to callers when the function cannot prove it",
